@@ -265,6 +265,9 @@ func init() {
 			if s, ok, err := mixReplay(raw); ok {
 				return s, err
 			}
+			if s, ok, err := mixChainReplay(raw); ok {
+				return s, err
+			}
 			var r c13Replay
 			json.Unmarshal(raw, &r)
 			_, msg := c13Run(r.Prefix, r.Ops)
@@ -282,6 +285,7 @@ func runC13(w *vx.W) {
 		mixLen = 4
 	}
 	mixFamily(w, mixLen)
+	c10MixChains(w) // the same words as members of a chain: nothing may cross a file boundary
 	locals := []byte{0, 1, 3, 4, 15}
 	alpha := c13Alphabet(locals)
 	maxLen := 4
